@@ -859,6 +859,47 @@ func init() {
 		p.Restart()
 		p.Tail()
 	}})
+	Probes = append(Probes, Probe{"create-through-a-dead-handle-whose-number-is-next", []string{"C06", "C11", "C08"}, 0, func(p *P) {
+		// the handle of a removed directory names a free inode - after a restart exactly the one the allocator hands out
+		// next: a CREATE/MKDIR/SYMLINK through it must be answered (stale), whatever it locks first
+		for _, proc := range []string{"CREATE", "MKDIR", "SYMLINK"} {
+			d := p.Mkdir(p.Root, "d").RFh
+			p.Rmdir(p.Root, "d")
+			if !p.Restart() {
+				return
+			}
+			c := p.Call(proc, d)
+			c.Name = "z"
+			if proc == "SYMLINK" {
+				c.Target, c.TLen = "/t", 2
+			}
+			p.do(c)
+			if p.S.Wedged {
+				return
+			}
+			p.Lookup(d, "z")
+			// and a made-up handle for the next free number (generation 0 and 1)
+			for _, gen := range []byte{0, 1} {
+				b := make([]byte, 16)
+				copy(b, UnHex(d))
+				b[8] = gen
+				for i := 9; i < 16; i++ {
+					b[i] = 0
+				}
+				c := raw(p.Call(proc, ""), b)
+				c.Name = "w"
+				if proc == "SYMLINK" {
+					c.Target, c.TLen = "/t", 2
+				}
+				p.do(c)
+				if p.S.Wedged {
+					return
+				}
+			}
+			p.Mkdir(p.Root, "keep"+proc) // takes the number, so that the next round uses the following one
+		}
+		p.Tail()
+	}})
 	Probes = append(Probes, Probe{"create-with-an-initial-size", []string{"C11", "C02", "C19"}, 0, func(p *P) {
 		// the size among CREATE's initial attributes may be ignored or applied, but never beyond what SETATTR accepts: a file
 		// whose size the block map cannot address crashes a later READ and keeps the thread that frees it busy for ever
